@@ -37,14 +37,18 @@ enum Tool {
     Unknown,
     /// only as a tool envelope with an expiring timeout
     BashSleep,
+    /// `read utf8.txt` with `max_bytes` = the argument: the cut falls inside 2-/3-/4-byte characters
+    ReadCut(u8),
 }
+/// one line: 2 ASCII bytes, then 2-byte characters from offset 2, 3-byte from 18, 4-byte from 42 (74 bytes)
+const UTF8_FILE: &str = "abéééééééé€€€€€€€€😀😀😀😀😀😀😀😀";
 const CALL_TOOLS: [Tool; 9] = [Tool::Ls, Tool::ReadOk, Tool::ReadMissing, Tool::ReadBadArgs, Tool::WriteOk, Tool::WriteBadArgs, Tool::BashEcho, Tool::BashFail, Tool::Unknown];
 
 impl Tool {
     fn name(self) -> &'static str {
         match self {
             Tool::Ls => "ls",
-            Tool::ReadOk | Tool::ReadMissing | Tool::ReadBadArgs => "read",
+            Tool::ReadOk | Tool::ReadMissing | Tool::ReadBadArgs | Tool::ReadCut(_) => "read",
             Tool::WriteOk | Tool::WriteBadArgs => "write",
             Tool::BashEcho | Tool::BashFail | Tool::BashSleep => "bash",
             Tool::Unknown => "frobnicate",
@@ -62,6 +66,7 @@ impl Tool {
             Tool::BashFail => json!({"command": "echo oops 1>&2; exit 3"}),
             Tool::Unknown => json!({"x": 1}),
             Tool::BashSleep => json!({"command": "sleep 2"}),
+            Tool::ReadCut(k) => json!({"path": "utf8.txt", "max_bytes": k}),
         }
     }
     /// the `arguments` string of a provider function call
@@ -103,7 +108,49 @@ enum Req {
     Http(u16),
     /// 200, zero-length body, properly terminated
     Empty,
+    /// non-2xx with a long body: `prefix` x 'x', then `count` x the character `cp`, then `tail` x 'y'
+    HttpBody { status: u16, body: BodySpec },
 }
+
+/// an error body described by its shape (the bytes are what matters: lengths around every cap the code
+/// has or may get, with a 1-/2-/3-/4-byte character at every alignment of that offset)
+#[derive(Clone, Copy, Debug, PartialEq, Eq, Serialize, Deserialize)]
+struct BodySpec {
+    prefix: u32,
+    cp: u32,
+    count: u32,
+    tail: u32,
+}
+impl BodySpec {
+    fn ch(&self) -> char {
+        char::from_u32(self.cp).unwrap_or('?')
+    }
+    fn text(&self) -> String {
+        let mut s = String::with_capacity(self.len());
+        s.extend(std::iter::repeat('x').take(self.prefix as usize));
+        s.extend(std::iter::repeat(self.ch()).take(self.count as usize));
+        s.extend(std::iter::repeat('y').take(self.tail as usize));
+        s
+    }
+    fn len(&self) -> usize {
+        self.prefix as usize + self.ch().len_utf8() * self.count as usize + self.tail as usize
+    }
+    /// a body of about `total` bytes in which a character of width `w` starts `back` bytes before offset `at`
+    /// (back = 0: `at` is a character boundary; 0 < back < w: `at` falls inside a character)
+    fn straddling(at: u32, w: u32, back: u32, total: u32) -> BodySpec {
+        let cp = match w {
+            1 => 'a' as u32,
+            2 => 0xE9,    // é
+            3 => 0x20AC,  // €
+            _ => 0x1F600, // 😀
+        };
+        let start = at.saturating_sub(back);
+        let prefix = start % w;
+        let count = (total.saturating_sub(prefix)) / w + 1;
+        BodySpec { prefix, cp, count, tail: 0 }
+    }
+}
+
 
 #[derive(Clone, Copy, Debug, PartialEq, Eq, Serialize, Deserialize)]
 enum Choice {
@@ -148,6 +195,13 @@ enum Act {
     /// S6: POST /sessions, then POST /sessions/{id}/input TWICE (router only, no provider); `wait` = the
     /// second input is sent after the first run has finished
     Input2 { first: InputSpec, second: InputSpec, wait: bool },
+    /// S6, concurrent: `rounds` fresh sessions (no provider); for each, `n` inputs are sent AT ONCE from `n` OS
+    /// threads (router: POST /sessions/{id}/input; engine: `SessionEngine::spawn_session` on clones of the handle).
+    /// `stepped` = false: the threads are released together by a spin gate (a race; many rounds).
+    /// `stepped` = true: deterministic - every thread is held at the `rip_verif` point `session.spawn.guarded`
+    /// (inside spawn_session, after the started-guard, before the task is spawned) until all `n` threads have either
+    /// reached it or returned; a guard that is one atomic read-modify-write lets exactly one thread reach the point.
+    InputRace { rounds: u32, n: u8, input: InputSpec, stepped: bool },
 }
 
 #[derive(Clone, Debug, PartialEq, Serialize, Deserialize)]
@@ -283,8 +337,20 @@ fn closed_port_url() -> String {
 /// starts the scripted provider of one activity; returns (provider guard, endpoint, per-request Seen or the fixed outcome)
 enum Pred {
     Stream(Seen),
-    Http,
+    /// status, body as (code point, count) segments
+    Http(u16, Vec<(u32, u32)>),
     Empty,
+}
+const SHORT_ERROR_BODY: &str = "{\"error\":{\"message\":\"scripted\"}}";
+fn segments(text: &str) -> Vec<(u32, u32)> {
+    let mut out: Vec<(u32, u32)> = vec![];
+    for c in text.chars() {
+        match out.last_mut() {
+            Some((cp, n)) if *cp == c as u32 => *n += 1,
+            _ => out.push((c as u32, 1)),
+        }
+    }
+    out
 }
 fn start_provider(tag: &str, p: &ProviderSpec) -> (Option<ScriptedProvider>, String, Vec<Pred>) {
     let mut scripts = vec![];
@@ -299,8 +365,13 @@ fn start_provider(tag: &str, p: &ProviderSpec) -> (Option<ScriptedProvider>, Str
                 preds.push(if empty { Pred::Empty } else { Pred::Stream(seen) });
             }
             Req::Http(st) => {
-                scripts.push(Scripted::http_error(*st, "{\"error\":{\"message\":\"scripted\"}}"));
-                preds.push(Pred::Http);
+                scripts.push(Scripted::http_error(*st, SHORT_ERROR_BODY));
+                preds.push(Pred::Http(*st, segments(SHORT_ERROR_BODY)));
+            }
+            Req::HttpBody { status, body } => {
+                let text = body.text();
+                scripts.push(Scripted::http_error(*status, &text));
+                preds.push(Pred::Http(*status, segments(&text)));
             }
             Req::Empty => {
                 scripts.push(Scripted::sse(vec![]));
@@ -418,6 +489,8 @@ struct Ids {
     status: u16,
     /// Input2: status of the second input
     status2: u16,
+    /// InputRace: session id and number of accepted inputs of every round
+    race: Vec<(String, u32)>,
 }
 
 struct IdMap(BTreeMap<String, u64>);
@@ -427,10 +500,36 @@ impl IdMap {
     }
 }
 
-fn enc_line(l: &Line, ids: &IdMap) -> Vec<u64> {
+/// Adler-32 of a text (mirrored by `adler` in the model)
+fn adler(b: &[u8]) -> u64 {
+    let (mut x, mut y) = (1u64, 0u64);
+    for c in b {
+        x = (x + *c as u64) % 65521;
+        y = (y + x) % 65521;
+    }
+    y * 65536 + x
+}
+const HTTP_ERROR_PREFIX: &str = "provider http error: ";
+/// tool ids of `read utf8.txt` invocations (their stdout chunk is compared with the model's cut)
+fn read_cut_tool_ids(log: &[Line]) -> BTreeSet<String> {
+    log.iter()
+        .filter(|l| l.ty == "tool_started" && l.s("name") == "read" && l.v.pointer("/args/path").and_then(|x| x.as_str()) == Some("utf8.txt"))
+        .map(|l| l.s("tool_id"))
+        .collect()
+}
+fn enc_line(l: &Line, ids: &IdMap, cut_tools: &BTreeSet<String>) -> Vec<u64> {
     if l.is_session() {
         let mut o = vec![1, ids.get(&l.stream), l.seq];
-        o.extend(sk_code(l));
+        // the text of an HTTP-error frame and the chunk of a cut read are compared too (length, Adler-32)
+        let err = l.v.pointer("/errors/0").and_then(|x| x.as_str()).unwrap_or("");
+        if l.ty == "provider_event" && err.starts_with(HTTP_ERROR_PREFIX) {
+            o.extend([16, err.len() as u64, adler(err.as_bytes())]);
+        } else if l.ty == "tool_stdout" && cut_tools.contains(&l.s("tool_id")) {
+            let chunk = l.s("chunk");
+            o.extend([17, chunk.len() as u64, adler(chunk.as_bytes())]);
+        } else {
+            o.extend(sk_code(l));
+        }
         return o;
     }
     let run = ids.get(&l.s("run_session_id"));
@@ -504,7 +603,16 @@ fn oracle(log: &[Line]) -> Vec<(String, String)> {
         let seqs = fr.iter().enumerate().all(|(i, l)| l.seq == i as u64);
         if !shape || !seqs {
             let kinds: Vec<String> = fr.iter().take(12).map(|l| format!("{}:{}", l.seq, l.ty)).collect();
-            let class = if starts > 1 && fr.iter().filter(|l| l.seq == 0).count() > 1 { "session-shape-two-runs-one-session" } else if !shape { "session-shape" } else { "session-seqs" };
+            let class = if starts > 1 && fr.iter().filter(|l| l.seq == 0).count() > 1 {
+                "session-shape-two-runs-one-session"
+            } else if starts == 1 && ends == 0 && fr[0].ty == "session_started" {
+                // the run started and nothing closed it (its task returned early, panicked or hangs)
+                "run-never-ended"
+            } else if !shape {
+                "session-shape"
+            } else {
+                "session-seqs"
+            };
             out.push((format!("session stream {sid}: starts={starts} ends={ends} n={n} seqs_ok={seqs} head={kinds:?}"), class.to_string()));
         }
     }
@@ -636,12 +744,95 @@ fn engine_cfg(url: &str, p: &ProviderSpec) -> ripd::verif::OpenResponsesConfig {
     }
 }
 
+// ---- concurrent inputs to one session
+thread_local! {
+    static RACER: std::cell::Cell<Option<usize>> = const { std::cell::Cell::new(None) };
+}
+#[derive(Default)]
+struct RaceState {
+    parked: BTreeSet<usize>,
+    finished: BTreeSet<usize>,
+    released: bool,
+}
+static RACE: std::sync::Mutex<Option<RaceState>> = std::sync::Mutex::new(None);
+static RACE_CV: std::sync::Condvar = std::sync::Condvar::new();
+/// how often a racer was seen parked at the guard point (tells whether the hook point exists in this tree)
+static RACE_PARKS: AtomicU64 = AtomicU64::new(0);
+
+/// called from the global hook
+fn race_point() {
+    let Some(me) = RACER.with(|r| r.get()) else { return };
+    let mut g = RACE.lock().unwrap();
+    let Some(st) = g.as_mut() else { return };
+    st.parked.insert(me);
+    RACE_PARKS.fetch_add(1, Ordering::SeqCst);
+    RACE_CV.notify_all();
+    while !g.as_ref().map(|s| s.released).unwrap_or(true) {
+        g = RACE_CV.wait(g).unwrap();
+    }
+}
+
+/// `n` threads run `f(i)` (true = the input was accepted) against one session; returns how many were accepted
+fn race<F: Fn(usize) -> bool + Sync>(n: usize, stepped: bool, f: F) -> u32 {
+    let gate = std::sync::atomic::AtomicUsize::new(0);
+    *RACE.lock().unwrap() = if stepped { Some(RaceState::default()) } else { None };
+    let accepted = std::thread::scope(|sc| {
+        let mut hs = vec![];
+        for i in 0..n {
+            let (f, gate) = (&f, &gate);
+            hs.push(sc.spawn(move || {
+                if stepped {
+                    RACER.with(|r| r.set(Some(i)));
+                } else {
+                    gate.fetch_add(1, Ordering::SeqCst);
+                    while gate.load(Ordering::SeqCst) < n {
+                        std::hint::spin_loop();
+                    }
+                }
+                let ok = std::panic::catch_unwind(std::panic::AssertUnwindSafe(|| f(i))).unwrap_or(false);
+                if stepped {
+                    let mut g = RACE.lock().unwrap();
+                    if let Some(st) = g.as_mut() {
+                        st.finished.insert(i);
+                    }
+                    RACE_CV.notify_all();
+                }
+                ok
+            }));
+            if stepped {
+                // the next thread starts only when this one sits at the guard point or is through (no clock involved)
+                let mut g = RACE.lock().unwrap();
+                while !g.as_ref().map(|s| s.parked.contains(&i) || s.finished.contains(&i)).unwrap_or(true) {
+                    g = RACE_CV.wait(g).unwrap();
+                }
+            }
+        }
+        if stepped {
+            if let Some(st) = RACE.lock().unwrap().as_mut() {
+                st.released = true;
+            }
+            RACE_CV.notify_all();
+        }
+        hs.into_iter().map(|h| h.join().unwrap_or(false)).filter(|b| *b).count() as u32
+    });
+    *RACE.lock().unwrap() = None;
+    accepted
+}
+
+// ---- panics of implementation tasks (tokio catches them; the hook still sees them)
+static PANICS: std::sync::Mutex<Vec<String>> = std::sync::Mutex::new(Vec::new());
+fn panics_seen() -> usize {
+    PANICS.lock().map(|g| g.len()).unwrap_or(0)
+}
+
 struct Exec {
     ids: Vec<Ids>,
     preds: Vec<Vec<Pred>>,
     log: Vec<Line>,
     thread: String,
     hang: Option<String>,
+    /// panics seen while the case ran (thread name, message, location)
+    panics: Vec<String>,
 }
 
 const WATCHDOG: Duration = Duration::from_secs(180);
@@ -652,7 +843,7 @@ fn act_done(a: &Act, id: &Ids, log: &[Line]) -> bool {
             Some(s) => log.iter().any(|l| l.ty == "continuity_run_ended" && l.s("run_session_id") == *s),
             None => true,
         },
-        Act::Input { .. } | Act::Input2 { .. } => true, // counted through the snapshot hook
+        Act::Input { .. } | Act::Input2 { .. } | Act::InputRace { .. } => true, // counted through the snapshot hook
         Act::Job { .. } => match &id.job {
             Some(j) => log.iter().any(|l| l.ty == "continuity_job_ended" && l.s("job_id") == *j),
             None => true,
@@ -666,12 +857,19 @@ static SEEN_MISSING_END: std::sync::atomic::AtomicBool = std::sync::atomic::Atom
 /// Phase 1: every started run_session task has passed `write_snapshot` (hook count; watchdog => "hang").
 /// Phase 2: the closing thread frames (run_ended right after the snapshot, job_ended) are in the log; a frame
 /// still missing after a generous grace period is left to the oracle (end-count), not reported as a hang.
-async fn wait_done(data: &Path, acts: &[Act], ids: &[Ids], snaps_before: u64, runs_started: u64) -> Option<String> {
+async fn wait_done(data: &Path, acts: &[Act], ids: &[Ids], before: (u64, usize), runs_started: u64) -> Option<String> {
+    let (snaps_before, panics_before) = before;
     let t0 = Instant::now();
     loop {
         let snaps = SNAPS.load(Ordering::SeqCst) - snaps_before;
         if snaps >= runs_started {
             break;
+        }
+        // a run whose task panicked never reaches its single exit: no session_ended, no snapshot, no run_ended
+        let died = (panics_seen() - panics_before.min(panics_seen())) as u64;
+        if died > 0 && snaps + died >= runs_started {
+            let msg = PANICS.lock().ok().and_then(|g| g.last().cloned()).unwrap_or_default();
+            return Some(format!("{} of {runs_started} runs never ended: their task panicked ({msg})", runs_started - snaps));
         }
         if t0.elapsed() > WATCHDOG {
             return Some(format!("{} of {runs_started} runs did not reach their snapshot within {WATCHDOG:?}", runs_started - snaps));
@@ -699,6 +897,7 @@ fn prepare_workspace(ws: &Path) -> std::io::Result<()> {
     std::fs::write(ws.join("a.txt"), "alpha\nbeta\n")?;
     std::fs::write(ws.join("sub/one.txt"), "1\n")?;
     std::fs::write(ws.join("sub/two.txt"), "2\n")?;
+    std::fs::write(ws.join("utf8.txt"), UTF8_FILE)?;
     // the store needs room too: refuse to start a case on a (nearly) full disk
     std::fs::write(ws.join(".probe"), vec![0u8; 1 << 20])?;
     std::fs::remove_file(ws.join(".probe"))
@@ -715,7 +914,7 @@ async fn exec_case(c: &Case, root: &Path) -> Result<Exec, String> {
     for (i, a) in c.acts.iter().enumerate() {
         let p = match a {
             Act::Post { provider, .. } | Act::Input { provider, .. } => provider.as_ref(),
-            Act::Job { .. } | Act::Input2 { .. } => None,
+            Act::Job { .. } | Act::Input2 { .. } | Act::InputRace { .. } => None,
         };
         match p {
             Some(p) => {
@@ -731,7 +930,7 @@ async fn exec_case(c: &Case, root: &Path) -> Result<Exec, String> {
             }
         }
     }
-    let snaps_before = SNAPS.load(Ordering::SeqCst);
+    let snaps_before = (SNAPS.load(Ordering::SeqCst), panics_seen());
     let mut ids: Vec<Ids> = vec![];
     let mut runs_started = 0u64;
     let mut hang = None;
@@ -766,6 +965,20 @@ async fn exec_case(c: &Case, root: &Path) -> Result<Exec, String> {
                     id.sid = Some(handle.session_id.clone());
                     engine.spawn_session(handle, input_text(input, i), None, cfg);
                     runs_started += 1;
+                    id.status = 202;
+                }
+                Act::InputRace { rounds, n, input, stepped } => {
+                    let h = tokio::runtime::Handle::current();
+                    for r in 0..*rounds {
+                        let handle = engine.create_session();
+                        let text = input_text(input, i + r as usize);
+                        let accepted = race(*n as usize, *stepped, |_who| {
+                            let _g = h.enter();
+                            engine.spawn_session(handle.clone(), text.clone(), None, None)
+                        });
+                        runs_started += accepted as u64;
+                        id.race.push((handle.session_id.clone(), accepted));
+                    }
                     id.status = 202;
                 }
                 Act::Job { .. } | Act::Input2 { .. } => {}
@@ -860,6 +1073,22 @@ async fn exec_case(c: &Case, root: &Path) -> Result<Exec, String> {
                         runs_started += 1;
                     }
                 }
+                Act::InputRace { rounds, n, input, stepped } => {
+                    let h = tokio::runtime::Handle::current();
+                    for r in 0..*rounds {
+                        let (_, v) = call_json(&app, req("POST", "/sessions", None)).await;
+                        let sid = v.get("session_id").and_then(|x| x.as_str()).unwrap_or("").to_string();
+                        let body = json!({"input": input_text(input, i + r as usize)});
+                        // each sender drives its own request on its own OS thread (the handler runs inline in `oneshot`)
+                        let accepted = race(*n as usize, *stepped, |_who| {
+                            let (st, _) = h.block_on(call_json(&app, req("POST", &format!("/sessions/{sid}/input"), Some(body.clone()))));
+                            st == 202
+                        });
+                        runs_started += accepted as u64;
+                        id.race.push((sid, accepted));
+                    }
+                    id.status = 202;
+                }
                 Act::Job { stride, max_new, fail } => {
                     if *fail {
                         let art = ws.join(".rip").join("artifacts");
@@ -894,7 +1123,8 @@ async fn exec_case(c: &Case, root: &Path) -> Result<Exec, String> {
     }
     let log = read_log(&data);
     drop(providers);
-    Ok(Exec { ids, preds, log, thread, hang })
+    let panics = PANICS.lock().map(|g| g[snaps_before.1.min(g.len())..].to_vec()).unwrap_or_default();
+    Ok(Exec { ids, preds, log, thread, hang, panics })
 }
 
 // ------------------------------------------------------------------ model terms
@@ -911,6 +1141,8 @@ fn tool_res(t: Tool, cal: &Calib, expires: bool) -> String {
     }
     match t {
         Tool::Unknown => "TUnknown".into(),
+        // predicted, not measured: one stdout chunk = the file cut as `read` cuts it
+        Tool::ReadCut(k) => format!("(TReadCut {} {k})", coq_list(&segments(UTF8_FILE), |(c, n)| format!("({c}, {n})"))),
         _ => {
             let (o, e) = cal.get(&t).copied().unwrap_or((0, 0));
             format!("(TDone {o} {e})")
@@ -936,7 +1168,12 @@ fn reqs_term(p: &ProviderSpec, preds: &[Pred], cal: &Calib) -> String {
     } else {
         for pr in preds {
             out.push(match pr {
-                Pred::Http => "RHttpErr".into(),
+                Pred::Http(st, segs) => {
+                    // `{status}` as reqwest prints it: the code and its canonical reason phrase
+                    let shown = axum::http::StatusCode::from_u16(*st).map(|c| c.to_string()).unwrap_or_default();
+                    let bytes: Vec<u64> = shown.bytes().map(|b| b as u64).collect();
+                    format!("(RHttpErr {} {})", coq_list_n(&bytes), coq_list(segs, |(c, n)| format!("({c}, {n})")))
+                }
                 Pred::Empty => "REmpty".into(),
                 Pred::Stream(s) => {
                     let pf = coq_list(&s.pf, |b| coq_bool(*b).to_string());
@@ -976,12 +1213,33 @@ fn case_term(c: &Case, ex: &Exec, cal: &Calib) -> Option<String> {
         if let Some(j) = &id.job {
             idmap.insert(j.clone(), 300 + i as u64);
         }
+        for (r, (sid, _)) in id.race.iter().enumerate() {
+            idmap.insert(sid.clone(), 10_000 + 1000 * i as u64 + r as u64);
+        }
     }
     let idmap = IdMap(idmap);
+    let cut_tools = read_cut_tool_ids(&ex.log);
     let njobs = ex.ids.iter().filter(|i| i.job.is_some()).count();
     let mut acts = vec![];
     let mut expects = vec![];
     for (i, (a, id)) in c.acts.iter().zip(&ex.ids).enumerate() {
+        if let Act::InputRace { input, .. } = a {
+            // exactly one of the concurrent inputs started a run: each round is one unlinked session run
+            for (r, (sid, accepted)) in id.race.iter().enumerate() {
+                if *accepted != 1 {
+                    return None;
+                }
+                let num = 10_000 + 1000 * i as u64 + r as u64;
+                let owned: Vec<&Line> = ex.log.iter().filter(|l| l.is_session() && l.stream == *sid).collect();
+                let mut flat = vec![owned.len() as u64];
+                for l in owned {
+                    flat.extend(enc_line(l, &idmap, &cut_tools));
+                }
+                acts.push(format!("(AInput {} {} {})", cfg_term(None), num, input_term(input, None, &[], cal, true)));
+                expects.push(coq_list_n(&flat));
+            }
+            continue;
+        }
         let (term, owned): (String, Vec<&Line>) = match a {
             Act::Post { input, provider } => {
                 let (Some(sid), Some(mid)) = (&id.sid, &id.mid) else { return None };
@@ -1008,6 +1266,7 @@ fn case_term(c: &Case, ex: &Exec, cal: &Calib) -> Option<String> {
                 let o = ex.log.iter().filter(|l| l.is_session() && l.stream == *sid).collect();
                 (t, o)
             }
+            Act::InputRace { .. } => continue,
             Act::Job { .. } => {
                 let Some(j) = &id.job else { continue };
                 if njobs != 1 {
@@ -1030,7 +1289,7 @@ fn case_term(c: &Case, ex: &Exec, cal: &Calib) -> Option<String> {
             if l.ty == "continuity_compaction_checkpoint_created" {
                 flat.extend([2, 27, 300 + i as u64]);
             } else {
-                flat.extend(enc_line(l, &idmap));
+                flat.extend(enc_line(l, &idmap, &cut_tools));
             }
         }
         acts.push(format!("({term})"));
@@ -1040,6 +1299,89 @@ fn case_term(c: &Case, ex: &Exec, cal: &Calib) -> Option<String> {
 }
 
 // ------------------------------------------------------------------ generator
+/// Byte offsets at which the run path may cut a text: every integer literal (16..=70000) in the non-test part
+/// of the sources on the provider / run path, read from the tree under test, plus the usual powers of two.
+/// (A cap somebody adds tomorrow is a literal in one of these files.)
+fn source_literals(repo: &Path) -> Vec<u32> {
+    let mut out = BTreeSet::new();
+    for f in ["crates/ripd/src/session.rs", "crates/ripd/src/runner.rs", "crates/ripd/src/provider_openresponses.rs", "crates/rip-provider-openresponses/src/lib.rs", "crates/rip-tools/src/runtime.rs"] {
+        let Ok(text) = std::fs::read_to_string(repo.join(f)) else { continue };
+        let text = match text.find("#[cfg(test)]") {
+            Some(i) => &text[..i],
+            None => &text[..],
+        };
+        for line in text.lines() {
+            let line = line.split("//").next().unwrap_or("");
+            let b: Vec<char> = line.chars().collect();
+            let mut i = 0;
+            let mut in_str = false;
+            while i < b.len() {
+                if b[i] == '"' && (i == 0 || b[i - 1] != '\\') {
+                    in_str = !in_str;
+                }
+                let starts = !in_str && b[i].is_ascii_digit() && (i == 0 || !(b[i - 1].is_alphanumeric() || b[i - 1] == '_' || b[i - 1] == '.'));
+                if starts {
+                    let mut j = i;
+                    let mut v: u64 = 0;
+                    while j < b.len() && (b[j].is_ascii_digit() || b[j] == '_') {
+                        if let Some(d) = b[j].to_digit(10) {
+                            v = v.saturating_mul(10).saturating_add(d as u64);
+                        }
+                        j += 1;
+                    }
+                    if (16..=70_000).contains(&v) && !(j < b.len() && b[j] == '.') {
+                        out.insert(v as u32);
+                    }
+                    i = j;
+                } else {
+                    i += 1;
+                }
+            }
+        }
+    }
+    out.into_iter().collect()
+}
+const POW2_CAPS: [u32; 11] = [64, 128, 256, 512, 1024, 2048, 4096, 8192, 16384, 32768, 65536];
+const ERR_STATUSES: [u16; 8] = [400, 401, 404, 429, 500, 502, 503, 504];
+
+fn gen_body(r: &mut Rng, caps: &[u32]) -> BodySpec {
+    let at = *r.pick(caps);
+    let w = r.range(1, 4) as u32;
+    let back = r.below(w as u64) as u32;
+    let total = match r.below(4) {
+        0 => at.saturating_sub(r.below(3) as u32),
+        1 => at + r.range(1, 8) as u32,
+        2 => at + r.range(9, 400) as u32,
+        _ => at * 2 + r.below(50) as u32,
+    };
+    let mut b = BodySpec::straddling(at, w, back, total);
+    if r.chance(1, 3) {
+        b.tail = r.range(1, 40) as u32;
+    }
+    b
+}
+
+/// the cut sweep: for the offset `at`, character widths 1..4, every alignment of a character against `at`
+/// (and, for ASCII, total lengths at-1, at, at+1), as HTTP error bodies of linked runs
+fn body_sweep(at: u32, r: &mut Rng) -> Vec<Case> {
+    let mut out = vec![];
+    for w in 1..=4u32 {
+        let mut bodies: Vec<BodySpec> = (0..w).map(|back| BodySpec::straddling(at, w, back, at + 40)).collect();
+        if w == 1 {
+            bodies.extend([at.saturating_sub(1), at, at + 1].map(|n| BodySpec { prefix: 0, cp: 'a' as u32, count: n, tail: 0 }));
+        } else {
+            // mixed: the straddling character is the only wide one
+            bodies.push(BodySpec { prefix: at - 1, cp: bodies[1].cp, count: 1, tail: 30 });
+        }
+        let acts = bodies
+            .into_iter()
+            .map(|body| Act::Post { input: InputSpec::Prompt, provider: Some(ProviderSpec { stateless: false, choice: Choice::Auto, closed_port: false, reqs: vec![Req::HttpBody { status: *r.pick(&ERR_STATUSES), body }] }) })
+            .collect();
+        out.push(Case { engine: w % 2 == 0, parallel: false, acts, break_summaries: false });
+    }
+    out
+}
+
 fn gen_events(r: &mut Rng, calls: &[Tool], with_id: bool) -> Vec<Sse> {
     let mut ev = vec![];
     if r.chance(4, 5) {
@@ -1067,7 +1409,7 @@ fn gen_events(r: &mut Rng, calls: &[Tool], with_id: bool) -> Vec<Sse> {
 fn gen_cuts(r: &mut Rng) -> Vec<u64> {
     (0..r.below(4)).map(|_| r.range(1, 999)).collect()
 }
-fn gen_provider(r: &mut Rng, engine: bool) -> ProviderSpec {
+fn gen_provider(r: &mut Rng, engine: bool, caps: &[u32]) -> ProviderSpec {
     let stateless = r.chance(1, 3);
     let choice = if engine { *r.pick(&[Choice::Auto, Choice::OnlyLs, Choice::OnlyLs, Choice::NoTools, Choice::Invalid]) } else { Choice::Auto };
     let closed_port = r.chance(1, 14);
@@ -1076,14 +1418,15 @@ fn gen_provider(r: &mut Rng, engine: bool) -> ProviderSpec {
     for k in 0..=rounds {
         let last = k == rounds;
         let ncalls = if last { 0 } else { r.range(1, 3) };
-        let calls: Vec<Tool> = (0..ncalls).map(|_| *r.pick(&CALL_TOOLS)).collect();
+        let calls: Vec<Tool> = (0..ncalls).map(|_| gen_call_tool(r)).collect();
         // a tool round needs a response id unless the history is stateless; sometimes leave it out
         let with_id = r.chance(9, 10);
         let fault = r.below(if last { 3 } else { 9 });
         let events = gen_events(r, &calls, with_id);
         reqs.push(match fault {
             0 if last || r.chance(1, 3) => match r.below(6) {
-                0 => Req::Http(*r.pick(&[400u16, 401, 404, 429, 500, 503])),
+                0 if r.chance(1, 2) => Req::Http(*r.pick(&[400u16, 401, 404, 429, 500, 503])),
+                0 => Req::HttpBody { status: *r.pick(&ERR_STATUSES), body: gen_body(r, caps) },
                 1 => Req::Empty,
                 2 | 3 => {
                     // drop at byte k of the body
@@ -1099,6 +1442,13 @@ fn gen_provider(r: &mut Rng, engine: bool) -> ProviderSpec {
     }
     ProviderSpec { stateless, choice, closed_port, reqs }
 }
+fn gen_call_tool(r: &mut Rng) -> Tool {
+    if r.chance(1, 8) {
+        Tool::ReadCut(r.below(80) as u8)
+    } else {
+        *r.pick(&CALL_TOOLS)
+    }
+}
 fn gen_input(r: &mut Rng) -> InputSpec {
     match r.below(10) {
         0..=5 => InputSpec::Prompt,
@@ -1106,14 +1456,14 @@ fn gen_input(r: &mut Rng) -> InputSpec {
             if r.chance(1, 6) {
                 InputSpec::ToolEnv { tool: Tool::BashSleep, tmo: 2 }
             } else {
-                InputSpec::ToolEnv { tool: *r.pick(&CALL_TOOLS), tmo: r.below(2) as u8 }
+                InputSpec::ToolEnv { tool: gen_call_tool(r), tmo: r.below(2) as u8 }
             }
         }
         8 => InputSpec::CkCreate { ok: r.chance(2, 3) },
         _ => InputSpec::CkRewindMissing,
     }
 }
-fn gen_case(r: &mut Rng, i: usize) -> Case {
+fn gen_case(r: &mut Rng, i: usize, caps: &[u32]) -> Case {
     if i % 25 == 7 {
         // a summarizer job that fails: posts through the kernel stub (no tool writes artifacts), then the job
         let mut acts: Vec<Act> = (0..r.range(1, 3)).map(|_| Act::Post { input: InputSpec::Prompt, provider: None }).collect();
@@ -1121,6 +1471,16 @@ fn gen_case(r: &mut Rng, i: usize) -> Case {
         return Case { engine: false, parallel: false, acts, break_summaries: false };
     }
     let engine = i % 3 == 2;
+    if i % 25 == 11 {
+        // concurrent inputs to fresh sessions, raced (odd: forced through the hook point)
+        let stepped = (i / 25) % 2 == 1;
+        let act = Act::InputRace { rounds: if stepped { 2 } else { r.range(5, 15) as u32 }, n: r.range(2, 4) as u8, input: if r.chance(1, 3) { InputSpec::ToolEnv { tool: Tool::Ls, tmo: 0 } } else { InputSpec::Prompt }, stepped };
+        let mut acts = vec![act];
+        if r.chance(1, 2) {
+            acts.push(Act::Post { input: InputSpec::Prompt, provider: None });
+        }
+        return Case { engine, parallel: false, acts, break_summaries: false };
+    }
     let nacts = *r.pick(&[1usize, 1, 1, 2, 2, 3]);
     let parallel = nacts > 1 && r.chance(2, 3);
     let mut acts = vec![];
@@ -1130,10 +1490,10 @@ fn gen_case(r: &mut Rng, i: usize) -> Case {
         let linked = r.chance(3, 4);
         let want_provider = matches!(input, InputSpec::Prompt) && r.chance(5, 6);
         if linked {
-            acts.push(Act::Post { provider: if want_provider { Some(gen_provider(r, engine)) } else { None }, input });
+            acts.push(Act::Post { provider: if want_provider { Some(gen_provider(r, engine, caps)) } else { None }, input });
         } else {
             // through the router an unlinked session can only use the app's default provider: one per case
-            let p = if want_provider && (engine || !default_used) { Some(gen_provider(r, engine)) } else { None };
+            let p = if want_provider && (engine || !default_used) { Some(gen_provider(r, engine, caps)) } else { None };
             if p.is_some() && !engine {
                 default_used = true;
             }
@@ -1144,7 +1504,7 @@ fn gen_case(r: &mut Rng, i: usize) -> Case {
         // with an app-level default, a router post without override would use it too: give every prompt post its own
         for a in acts.iter_mut() {
             match a {
-                Act::Post { input: InputSpec::Prompt, provider } if provider.is_none() => *provider = Some(gen_provider(r, false)),
+                Act::Post { input: InputSpec::Prompt, provider } if provider.is_none() => *provider = Some(gen_provider(r, false, caps)),
                 // … and so would a second unlinked prompt: make it an envelope
                 Act::Input { input, provider: None } if *input == InputSpec::Prompt => *input = InputSpec::ToolEnv { tool: Tool::Ls, tmo: 0 },
                 _ => {}
@@ -1191,6 +1551,11 @@ fn corpus() -> Vec<Case> {
         // S6: two inputs on one session
         Case { break_summaries: false, engine: false, parallel: false, acts: vec![Act::Input2 { first: InputSpec::Prompt, second: InputSpec::Prompt, wait: true }] },
         Case { break_summaries: false, engine: false, parallel: false, acts: vec![Act::Input2 { first: InputSpec::ToolEnv { tool: Tool::BashEcho, tmo: 0 }, second: InputSpec::Prompt, wait: false }, Act::Post { input: InputSpec::Prompt, provider: None }] },
+        // concurrent inputs to one session, forced through the guard point: one run
+        Case { break_summaries: false, engine: true, parallel: false, acts: vec![Act::InputRace { rounds: 2, n: 2, input: InputSpec::Prompt, stepped: true }] },
+        Case { break_summaries: false, engine: false, parallel: false, acts: vec![Act::InputRace { rounds: 2, n: 2, input: InputSpec::Prompt, stepped: true }] },
+        // a long localized error page: 'x' then 2-byte characters, a character straddles offset 2048
+        Case { break_summaries: false, engine: false, parallel: false, acts: vec![post(vec![Req::HttpBody { status: 502, body: BodySpec { prefix: 1, cp: 0xE9, count: 4000, tail: 0 } }])] },
         // tool-call limit: 3 rounds of 12 calls
         Case { break_summaries: false, engine: false, parallel: false, acts: vec![post((0..4).map(|_| text_req(std::iter::once(Sse::Created { id: true }).chain((0..12).map(|_| Sse::Call(Tool::Ls))).collect())).collect())] },
     ]
@@ -1223,6 +1588,7 @@ fn label(c: &Case) -> Vec<String> {
                 v.push(match input {
                     InputSpec::Prompt => "input=prompt".to_string(),
                     InputSpec::ToolEnv { tmo: 2, .. } => "input=tool-timeout".to_string(),
+                    InputSpec::ToolEnv { tool: Tool::ReadCut(_), .. } => "input=tool-ReadCut".to_string(),
                     InputSpec::ToolEnv { tool, .. } => format!("input=tool-{tool:?}"),
                     InputSpec::CkCreate { ok } => format!("input=checkpoint-create-{ok}"),
                     InputSpec::CkRewindMissing => "input=checkpoint-rewind-missing".to_string(),
@@ -1236,6 +1602,10 @@ fn label(c: &Case) -> Vec<String> {
                     for r in &p.reqs {
                         match r {
                             Req::Http(s) => v.push(format!("fault=http-{}xx", s / 100)),
+                            Req::HttpBody { status, body } => {
+                                v.push(format!("fault=http-{}xx", status / 100));
+                                v.push(format!("http-body=len~2^{} char-width={}", (body.len().max(1) as f64).log2().floor() as u32, body.ch().len_utf8()));
+                            }
                             Req::Empty => v.push("fault=empty-body".into()),
                             Req::Stream { done, drop_at, events, partial_tail, .. } => {
                                 if drop_at.is_some() {
@@ -1251,6 +1621,7 @@ fn label(c: &Case) -> Vec<String> {
                                     match e {
                                         Sse::Malformed => v.push("event=malformed-json".into()),
                                         Sse::SchemaInvalid => v.push("event=schema-invalid".into()),
+                                        Sse::Call(Tool::ReadCut(_)) => v.push("call=ReadCut".into()),
                                         Sse::Call(t) => v.push(format!("call={t:?}")),
                                         _ => {}
                                     }
@@ -1264,6 +1635,7 @@ fn label(c: &Case) -> Vec<String> {
             }
             Act::Job { fail, .. } => v.push(if *fail { "job-fails".into() } else { "job".into() }),
             Act::Input2 { wait, .. } => v.push(format!("double-input-wait={wait}")),
+            Act::InputRace { n, stepped, .. } => v.push(format!("concurrent-inputs={n} {}", if *stepped { "stepped" } else { "raced" })),
         }
     }
     v.sort();
@@ -1283,8 +1655,21 @@ fn main() {
     rip_kernel::verif::set_hook(Some(Arc::new(|name: &'static str| {
         if name == "snap.flushed" {
             SNAPS.fetch_add(1, Ordering::SeqCst);
+        } else if name == "session.spawn.guarded" {
+            race_point();
         }
     })));
+    // panics of implementation tasks: tokio swallows them, the run just never ends - record them
+    std::panic::set_hook(Box::new(|info| {
+        let th = std::thread::current();
+        let msg = info.payload().downcast_ref::<&str>().map(|s| s.to_string()).or_else(|| info.payload().downcast_ref::<String>().cloned()).unwrap_or_default();
+        let loc = info.location().map(|l| format!("{}:{}", l.file(), l.line())).unwrap_or_default();
+        let line: String = format!("thread {:?} at {loc}: {msg}", th.name().unwrap_or("?")).chars().take(300).collect();
+        eprintln!("c07: PANIC {line}");
+        if let Ok(mut g) = PANICS.lock() {
+            g.push(line);
+        }
+    }));
     let mut res = RunResult::new("C07", &a);
     res.rule = "case = fresh store + 1..4 activities (linked runs through POST /threads/{id}/messages or the engine, unlinked session inputs, a compaction job), sequential or all at once; each prompt run talks to its own scripted provider (text, 1-3 tool rounds, malformed JSON, schema-invalid events, 4xx/5xx, drop at byte k, missing [DONE], partial tail, empty body, connect refused, invalid request; tools ok/failing/unknown/invalid args/barred by tool_choice/timeout; tool and checkpoint envelopes); non-trivial = a provider or envelope run; distinct by hash of the canonical case".into();
     let rt = tokio::runtime::Builder::new_multi_thread().worker_threads(4).enable_all().build().expect("runtime");
@@ -1311,8 +1696,35 @@ fn main() {
         }
         let n = if a.thorough() { 1500 } else { 150 };
         let mut r = Rng::new(a.seed);
+        // offsets to straddle: literals of the tree under test, 2048, one (thorough: every) power of two
+        let lits = source_literals(&a.repo());
+        let mut caps: BTreeSet<u32> = lits.iter().copied().collect();
+        caps.insert(2048);
+        if a.thorough() {
+            caps.extend(POW2_CAPS);
+        } else {
+            caps.insert(*r.pick(&POW2_CAPS));
+        }
+        let caps: Vec<u32> = caps.into_iter().collect();
+        res.notes.push(format!("cut offsets swept: {caps:?} (integer literals found on the run path: {lits:?})"));
         for i in 0..n {
-            cases.push(gen_case(&mut r, i));
+            cases.push(gen_case(&mut r, i, &caps));
+        }
+        for at in &caps {
+            cases.extend(body_sweep(*at, &mut r));
+        }
+        // concurrent inputs: raced (many rounds) and stepped, through the engine and through the router
+        for engine in [true, false] {
+            let rounds = if a.thorough() { 400 } else { 60 };
+            cases.push(Case { engine, parallel: false, break_summaries: false, acts: vec![Act::InputRace { rounds, n: 2, input: InputSpec::Prompt, stepped: false }] });
+            cases.push(Case { engine, parallel: false, break_summaries: false, acts: vec![Act::InputRace { rounds: rounds / 3, n: 4, input: InputSpec::Prompt, stepped: false }] });
+            cases.push(Case { engine, parallel: false, break_summaries: false, acts: vec![Act::InputRace { rounds: 3, n: 3, input: InputSpec::ToolEnv { tool: Tool::BashEcho, tmo: 0 }, stepped: true }] });
+        }
+        // the read tool's own cut, at every offset of a file of 2-/3-/4-byte characters (quick: every 5th)
+        let ks: Vec<u8> = (0..=78u8).filter(|k| a.thorough() || (*k as u64 + a.seed) % 5 == 0).collect();
+        for chunk in ks.chunks(4) {
+            let acts = chunk.iter().map(|k| Act::Input { input: InputSpec::ToolEnv { tool: Tool::ReadCut(*k), tmo: 0 }, provider: None }).collect();
+            cases.push(Case { engine: true, parallel: false, break_summaries: false, acts });
         }
         // single-fault sweep: the connection drops at every event boundary (-1, 0, +1) and at every 9th byte of
         // the first and of the second response of a base conversation (quick: 2 bases, thorough: 20)
@@ -1379,8 +1791,21 @@ fn main() {
         res.oracle_checks += 1;
         let mut bad = false;
         if let Some(h) = &ex.hang {
+            // "whatever the provider or the tools do": a run that never reaches its end frame (task died or hangs)
             bad = true;
-            res.oracle_violations.push(OracleViolation { case_id: i as i64, what: h.clone(), class: "hang".into(), replay: cj.clone() });
+            res.oracle_violations.push(OracleViolation { case_id: i as i64, what: h.clone(), class: "run-never-ended".into(), replay: cj.clone() });
+        } else if let Some(p) = ex.panics.first() {
+            bad = true;
+            res.impl_panics += 1;
+            res.oracle_violations.push(OracleViolation { case_id: i as i64, what: format!("a task panicked while the case ran: {p}"), class: "panic".into(), replay: cj.clone() });
+        }
+        // concurrent inputs to one session: exactly one of them starts the session's run
+        for id in &ex.ids {
+            if let Some((round, (sid, k))) = id.race.iter().enumerate().find(|(_, (_, k))| *k != 1) {
+                bad = true;
+                res.oracle_violations.push(OracleViolation { case_id: i as i64, what: format!("round {round}: {k} of the concurrent inputs to session {sid} were accepted (exactly one may start the run)"), class: "one-run-per-session".into(), replay: cj.clone() });
+                break;
+            }
         }
         let viol = oracle(&ex.log);
         if let Some((what, class)) = viol.first() {
@@ -1416,7 +1841,7 @@ fn main() {
                 res.bump("not-compared(activity refused)");
             }
         }
-        let nontrivial = c.acts.iter().any(|x| matches!(x, Act::Post { provider: Some(_), .. } | Act::Input { provider: Some(_), .. } | Act::Post { input: InputSpec::ToolEnv { .. }, .. } | Act::Input { input: InputSpec::ToolEnv { .. }, .. }));
+        let nontrivial = c.acts.iter().any(|x| matches!(x, Act::Post { provider: Some(_), .. } | Act::Input { provider: Some(_), .. } | Act::Post { input: InputSpec::ToolEnv { .. }, .. } | Act::Input { input: InputSpec::ToolEnv { .. }, .. } | Act::InputRace { .. }));
         if nontrivial {
             distinct.add(&cj.to_string());
         }
